@@ -94,76 +94,76 @@ const (
 )
 
 var c26Pinned = map[string]string{
-	"GET /":                            "open",
-	"GET /v2/system-info":              "ifopen ifaces=snap-interfaces-requests-control",
-	"POST /v2/login":                   "auth polkit=" + c26Login,
-	"POST /v2/logout":                  "auth polkit=" + c26Login,
-	"GET /v2/icons/{name}/icon":        "open",
-	"GET /v2/find":                     "open",
-	"GET /v2/snaps":                    "ifopen ifaces=snap-refresh-observe",
-	"POST /v2/snaps":                   "auth polkit=" + c26Manage,
-	"GET /v2/snaps/{name}":             "ifopen ifaces=snap-refresh-observe",
-	"POST /v2/snaps/{name}":            "auth polkit=" + c26Manage,
-	"GET /v2/snaps/{name}/file":        "open",
-	"POST /v2/download":                "auth polkit=" + c26Manage,
-	"GET /v2/snaps/{name}/conf":        "auth polkit=" + c26ManageConf,
-	"PUT /v2/snaps/{name}/conf":        "auth polkit=" + c26ManageConf,
-	"GET /v2/interfaces":               "open",
-	"POST /v2/interfaces":              "auth polkit=" + c26ManageIface,
-	"GET /v2/assertions":               "open",
-	"POST /v2/assertions":              "auth",
-	"GET /v2/assertions/{assertType}":  "open",
-	"GET /v2/changes/{id}":             "ifopen ifaces=snap-refresh-observe",
-	"POST /v2/changes/{id}":            "auth polkit=" + c26Manage,
-	"GET /v2/changes":                  "ifopen ifaces=snap-refresh-observe",
-	"POST /v2/create-user":             "root",
-	"POST /v2/buy":                     "auth",
-	"GET /v2/buy/ready":                "auth",
-	"POST /v2/snapctl":                 "snap",
-	"GET /v2/users":                    "root",
-	"POST /v2/users":                   "root",
-	"GET /v2/sections":                 "open",
-	"GET /v2/categories":               "open",
-	"GET /v2/aliases":                  "open",
-	"POST /v2/aliases":                 "auth",
-	"GET /v2/apps":                     "open",
-	"POST /v2/apps":                    "auth polkit=" + c26Manage,
-	"GET /v2/logs":                     "auth polkit=" + c26Manage,
-	"GET /v2/warnings":                 "open",
-	"POST /v2/warnings":                "auth polkit=" + c26Manage,
-	"GET /v2/debug/pprof/":             "root",
-	"GET /v2/debug":                    "open",
-	"POST /v2/debug":                   "root",
-	"GET /v2/snapshots":                "open",
-	"POST /v2/snapshots":               "auth polkit=" + c26Manage,
-	"GET /v2/snapshots/{id}/export":    "auth",
-	"GET /v2/connections":              "open",
-	"GET /v2/model":                    "open",
-	"POST /v2/model":                   "root",
-	"POST /v2/cohorts":                 "auth",
-	"GET /v2/model/serial":             "open",
-	"POST /v2/model/serial":            "root",
-	"GET /v2/systems":                  "auth",
-	"POST /v2/systems":                 "root",
-	"GET /v2/systems/{label}":          "root",
-	"POST /v2/systems/{label}":         "root",
-	"GET /v2/accessories/themes":       "ifopen ifaces=snap-themes-control",
-	"POST /v2/accessories/themes":      "ifauth polkit=" + c26Manage + " ifaces=snap-themes-control",
-	"GET /v2/accessories/changes/{id}": "ifopen ifaces=snap-themes-control",
-	"GET /v2/validation-sets":          "auth",
-	"GET /v2/validation-sets/{account}/{name}":          "auth",
-	"POST /v2/validation-sets/{account}/{name}":         "auth",
-	"POST /v2/internal/console-conf-start":              "auth",
-	"GET /v2/system-recovery-keys":                      "root",
-	"POST /v2/system-recovery-keys":                     "root",
-	"GET /v2/quotas":                                    "open",
-	"POST /v2/quotas":                                   "root",
-	"GET /v2/quotas/{group}":                            "open",
-	"GET /v2/registry/{account}/{registry}/{view}":      "auth polkit=" + c26Manage,
-	"PUT /v2/registry/{account}/{registry}/{view}":      "auth polkit=" + c26Manage,
-	"GET /v2/notices":                                   "ifopen ifaces=snap-refresh-observe,snap-interfaces-requests-control",
-	"POST /v2/notices":                                  "open",
-	"GET /v2/notices/{id}":                              "ifopen ifaces=snap-refresh-observe,snap-interfaces-requests-control",
+	"GET /":                                        "open",
+	"GET /v2/system-info":                          "ifopen ifaces=snap-interfaces-requests-control",
+	"POST /v2/login":                               "auth polkit=" + c26Login,
+	"POST /v2/logout":                              "auth polkit=" + c26Login,
+	"GET /v2/icons/{name}/icon":                    "open",
+	"GET /v2/find":                                 "open",
+	"GET /v2/snaps":                                "ifopen ifaces=snap-refresh-observe",
+	"POST /v2/snaps":                               "auth polkit=" + c26Manage,
+	"GET /v2/snaps/{name}":                         "ifopen ifaces=snap-refresh-observe",
+	"POST /v2/snaps/{name}":                        "auth polkit=" + c26Manage,
+	"GET /v2/snaps/{name}/file":                    "open",
+	"POST /v2/download":                            "auth polkit=" + c26Manage,
+	"GET /v2/snaps/{name}/conf":                    "auth polkit=" + c26ManageConf,
+	"PUT /v2/snaps/{name}/conf":                    "auth polkit=" + c26ManageConf,
+	"GET /v2/interfaces":                           "open",
+	"POST /v2/interfaces":                          "auth polkit=" + c26ManageIface,
+	"GET /v2/assertions":                           "open",
+	"POST /v2/assertions":                          "auth",
+	"GET /v2/assertions/{assertType}":              "open",
+	"GET /v2/changes/{id}":                         "ifopen ifaces=snap-refresh-observe",
+	"POST /v2/changes/{id}":                        "auth polkit=" + c26Manage,
+	"GET /v2/changes":                              "ifopen ifaces=snap-refresh-observe",
+	"POST /v2/create-user":                         "root",
+	"POST /v2/buy":                                 "auth",
+	"GET /v2/buy/ready":                            "auth",
+	"POST /v2/snapctl":                             "snap",
+	"GET /v2/users":                                "root",
+	"POST /v2/users":                               "root",
+	"GET /v2/sections":                             "open",
+	"GET /v2/categories":                           "open",
+	"GET /v2/aliases":                              "open",
+	"POST /v2/aliases":                             "auth",
+	"GET /v2/apps":                                 "open",
+	"POST /v2/apps":                                "auth polkit=" + c26Manage,
+	"GET /v2/logs":                                 "auth polkit=" + c26Manage,
+	"GET /v2/warnings":                             "open",
+	"POST /v2/warnings":                            "auth polkit=" + c26Manage,
+	"GET /v2/debug/pprof/":                         "root",
+	"GET /v2/debug":                                "open",
+	"POST /v2/debug":                               "root",
+	"GET /v2/snapshots":                            "open",
+	"POST /v2/snapshots":                           "auth polkit=" + c26Manage,
+	"GET /v2/snapshots/{id}/export":                "auth",
+	"GET /v2/connections":                          "open",
+	"GET /v2/model":                                "open",
+	"POST /v2/model":                               "root",
+	"POST /v2/cohorts":                             "auth",
+	"GET /v2/model/serial":                         "open",
+	"POST /v2/model/serial":                        "root",
+	"GET /v2/systems":                              "auth",
+	"POST /v2/systems":                             "root",
+	"GET /v2/systems/{label}":                      "root",
+	"POST /v2/systems/{label}":                     "root",
+	"GET /v2/accessories/themes":                   "ifopen ifaces=snap-themes-control",
+	"POST /v2/accessories/themes":                  "ifauth polkit=" + c26Manage + " ifaces=snap-themes-control",
+	"GET /v2/accessories/changes/{id}":             "ifopen ifaces=snap-themes-control",
+	"GET /v2/validation-sets":                      "auth",
+	"GET /v2/validation-sets/{account}/{name}":     "auth",
+	"POST /v2/validation-sets/{account}/{name}":    "auth",
+	"POST /v2/internal/console-conf-start":         "auth",
+	"GET /v2/system-recovery-keys":                 "root",
+	"POST /v2/system-recovery-keys":                "root",
+	"GET /v2/quotas":                               "open",
+	"POST /v2/quotas":                              "root",
+	"GET /v2/quotas/{group}":                       "open",
+	"GET /v2/registry/{account}/{registry}/{view}": "auth polkit=" + c26Manage,
+	"PUT /v2/registry/{account}/{registry}/{view}": "auth polkit=" + c26Manage,
+	"GET /v2/notices":                              "ifopen ifaces=snap-refresh-observe,snap-interfaces-requests-control",
+	"POST /v2/notices":                             "open",
+	"GET /v2/notices/{id}":                         "ifopen ifaces=snap-refresh-observe,snap-interfaces-requests-control",
 }
 
 func c26ParseLevel(s string) c26Level {
@@ -522,7 +522,7 @@ func (f *c26Fixture) setConns(conns []string) {
 	m := map[string]interface{}{
 		// an unrelated active connection of the caller and one of another snap: must never matter
 		c26CallerSnap + ":network slotsnap:network": map[string]interface{}{"interface": "network"},
-		"othersnap:home slotsnap:home":               map[string]interface{}{"interface": "home", "auto": true},
+		"othersnap:home slotsnap:home":              map[string]interface{}{"interface": "home", "auto": true},
 	}
 	for i, st := range conns {
 		iface := c26GatingIfaces[i]
@@ -862,9 +862,13 @@ func TestVerifC26(t *testing.T) {
 						if len(scens) > 2 && addr != "wf" && addr != "wf+iface" && fmt.Sprint(scen) != fmt.Sprint(twoScen[0]) && fmt.Sprint(scen) != fmt.Sprint(twoScen[1]) {
 							continue // garbled addresses x all 216 scenarios adds nothing: credentials are rejected before connections are read
 						}
+						pks := polkits
+						if r.Quick() && addr != "wf" && addr != "wf+iface" {
+							pks = []string{"allow"} // quick: missing/garbled credentials only against the most permissive polkit answer
+						}
 						for _, uid := range c26Uids {
 							for _, user := range c26Users {
-								for _, pk := range polkits {
+								for _, pk := range pks {
 									for _, sn := range snapNames {
 										c := c26Caller{Addr: addr, Socket: sock, Uid: uid, User: user, Polkit: pk, SnapName: sn, Conns: scen}
 										f.checkOne(rt, method, c, &cnt, false)
@@ -915,13 +919,13 @@ func TestVerifC26(t *testing.T) {
 	r.Finish(c26Rule)
 }
 
-const c26Rule = "every endpoint of the api table x methods (quick: GET, PUT, POST, DELETE, HEAD; thorough adds PATCH, OPTIONS, lower-case get) x 20 remote-address forms x 4 sockets x uids (quick 0, 1000; thorough adds 1) x 4 Authorization kinds x 4 polkit answers x (snap socket: 2 pid->snap answers) x connection scenarios (on the snap socket with well-formed credentials: all 6^3 per-interface states for interface-gated endpoints, in the thorough tier for every endpoint; otherwise none / all-active), one request each through the real router (methods without a handler: polkit and connection dimensions collapsed, the answer is 405 before any access decision); plus the ucrednet encode/attach/decode round trip over all field combinations (coverage.roundtrip_bounds). distinct_nontrivial = requests to an existing handler with decodable credentials (the access level, not the credential parser, decides them)"
+const c26Rule = "every endpoint of the api table x methods (quick: GET, PUT, POST, DELETE, HEAD; thorough adds PATCH, OPTIONS, lower-case get) x 20 remote-address forms x 4 sockets x uids (quick 0, 1000; thorough adds 1) x 4 Authorization kinds x 4 polkit answers (quick: missing/garbled credentials only with the most permissive answer, allow) x (snap socket: 2 pid->snap answers) x connection scenarios (on the snap socket with well-formed credentials: all 6^3 per-interface states for interface-gated endpoints, in the thorough tier for every endpoint; otherwise none / all-active), one request each through the real router (methods without a handler: polkit and connection dimensions collapsed, the answer is 405 before any access decision); plus the ucrednet encode/attach/decode round trip over all field combinations (coverage.roundtrip_bounds). distinct_nontrivial = requests to an existing handler with decodable credentials (the access level, not the credential parser, decides them)"
 
 // ---------------------------------------------------------------------------------------------
 // part 2: encode / attach / decode
 
 type c26RTCase struct {
-	Base   string   `json:"base"`   // "cred" or a garbled form name
+	Base   string   `json:"base"` // "cred" or a garbled form name
 	Pid    int32    `json:"pid"`
 	Uid    uint32   `json:"uid"`
 	Socket string   `json:"socket"`
